@@ -27,7 +27,7 @@ unsigned char nondet_uchar(void);
 int nondet_int(void);
 binson_type nondet_type(void);
 
-size_t vc_k;                      /* ghost level index, left nondeterministic */
+size_t vc_k, vc_j, vc_memcmp_idx, vc_cstr_max;  /* ghost indices, left nondeterministic */
 int vc_memcmp_result; size_t vc_memcmp_n; const void *vc_memcmp_a, *vc_memcmp_b; size_t vc_strlen_result;
 
 #define H_END()    __CPROVER_assert(0, "vacuity control: harness end reachable under the precondition")
@@ -213,4 +213,103 @@ void h_binson_parser_get_double(void)
                          "get_double returns the stored 8 bytes bit for bit");    /*@ double-bits */
     }
     H_END();
+}
+
+static bbuf *mk_bbuf(size_t maxlen)
+{
+    bbuf *d = malloc(sizeof(*d));
+    __CPROVER_assume(d != NULL);
+    __CPROVER_assume(d->bsize <= maxlen);
+    d->bptr = malloc(d->bsize);
+    __CPROVER_assume(d->bptr != NULL);
+    return d;
+}
+
+void h__cmp_name(void)
+{
+    bbuf *a = mk_bbuf(VC_MAX_NAME), *b = mk_bbuf(VC_MAX_NAME);
+    vc_j = nondet_size_t();
+    int r = _cmp_name(a, b);
+    if (r < 0) { H_END(); } else if (r == 0) { H_END(); } else { H_END(); }
+}
+
+void h__process_one(void)
+{
+    binson_parser *parser = mk_parser();
+    bbuf *consumed = malloc(sizeof(*consumed));
+    size_t *bc = malloc(sizeof(*bc));
+    __CPROVER_assume(consumed != NULL && bc != NULL);
+    __CPROVER_assume(parser->buffer_used < parser->buffer_size);
+    consumed->bptr = parser->buffer + parser->buffer_used;
+    uint16_t r = _process_one(parser, consumed, bc);
+    if (r == BINSON_STATE_ERROR) { H_END(); } else { H_END(); }
+}
+
+/* a readable name of the given length (not NUL-terminated) */
+static const char *mk_name(size_t len)
+{
+    char *p = malloc(len);
+    __CPROVER_assume(p != NULL);
+    return p;
+}
+
+/* a valid C string of length <= INT32_MAX */
+static const char *mk_cstr(void)
+{
+    size_t len = nondet_size_t();
+    __CPROVER_assume(len <= VC_MAX_NAME);
+    char *p = malloc(len + 1);
+    __CPROVER_assume(p != NULL);
+    p[len] = 0;
+    vc_cstr_max = len;
+    return p;
+}
+
+void h_binson_parser_field_with_length(void)
+{
+    binson_parser *parser = mk_parser_nav();
+    size_t len = nondet_size_t();
+    __CPROVER_assume(len <= VC_MAX_NAME);
+    bool r = binson_parser_field_with_length(parser, mk_name(len), len);
+    if (r) { H_END(); } else { H_END(); }
+}
+
+void h_binson_parser_field(void)
+{
+    binson_parser *parser = mk_parser_nav();
+    bool r = binson_parser_field(parser, mk_cstr());
+    if (r) { H_END(); } else { H_END(); }
+}
+
+void h_binson_parser_field_ensure(void)
+{
+    binson_parser *parser = mk_parser_nav();
+    bool r = binson_parser_field_ensure(parser, mk_cstr(), nondet_type());
+    if (r) { H_END(); } else { H_END(); }
+}
+
+void h_binson_parser_field_ensure_with_length(void)
+{
+    binson_parser *parser = mk_parser_nav();
+    size_t len = nondet_size_t();
+    __CPROVER_assume(len <= VC_MAX_NAME);
+    bool r = binson_parser_field_ensure_with_length(parser, mk_name(len), len, nondet_type());
+    if (r) { H_END(); } else { H_END(); }
+}
+
+void h_binson_parser_get_raw(void)
+{
+    binson_parser *parser = mk_parser_nav();
+    bbuf *raw = malloc(sizeof(*raw));
+    __CPROVER_assume(raw != NULL);
+    bool r = binson_parser_get_raw(parser, raw);
+    if (r) { H_END(); } else { H_END(); }
+}
+
+void h_binson_parser_string_equals(void)
+{
+    binson_parser *parser = mk_parser_nav();
+    vc_j = nondet_size_t();
+    bool r = binson_parser_string_equals(parser, mk_cstr());
+    if (r) { H_END(); } else { H_END(); }
 }
